@@ -13,6 +13,19 @@ the equilibrium frequencies and GTR rates - is batchable, and the sample shapes
 [S] / [S,K] are chosen so that a sample axis has the size of each structural axis
 of the kernel in turn (rate categories 1..5, 4 states, 4 branches, 3 patterns):
 a broadcast of a sample axis against one of those axes needs equal sizes (or 1).
+
+Birth-death models (keys 'bdsk:' / 'birthdeath:': BDSKModel with 1-3 epochs, BirthDeathModel) take data-dependent
+decisions (searchsorted of event times into the epochs, tips exactly on an epoch boundary, rho = 0 or > 0, masked_select),
+so they are decided PER PATH REGION (run_region_task): batched and per-slice executions share one trace per region, the
+regions are enumerated with blocking clauses and the closure query is the coverage certificate where the budget allows
+(one epoch: whole domain; more epochs: generic stratum / its complement, see bounds_bd).  Sample shapes [2], [3] ([2,2]
+thorough) collide with the number of epochs, epoch times, taxa and internal nodes.
+
+Keys 'extra:' are further callable models (GMRFCovariate, ConstantCoalescentIntegratedModel, ScaleMixtureNormal,
+BayesianBridge, DeterministicNormal, GMRFGammaIntegrated, Distribution over torchtree's OneOnX / LogNormal) in the
+single-region scheme.  Not executable by the engine and therefore NOT covered: MultivariateNormal
+(torch.linalg.solve_triangular has no handler, matrix-valued parameters); PiecewiseExponentialCoalescentGridModel raises
+on every input (C08 known finding), so there is nothing to compare.
 """
 from __future__ import annotations
 
@@ -37,11 +50,17 @@ SEQS_RESCALED = {'t0': 'ACRA', 't1': 'CGTC', 't2': 'GT-G'}
 
 
 def register():
+    import torchtree.distributions.bayesian_bridge  # noqa
     import torchtree.distributions.ctmc_scale  # noqa
+    import torchtree.distributions.deterministic_normal  # noqa
+    import torchtree.distributions.gmrf_integrated  # noqa
+    import torchtree.distributions.scale_mixture  # noqa
     import torchtree.distributions.distributions  # noqa
     import torchtree.distributions.gmrf  # noqa
     import torchtree.distributions.joint_distribution  # noqa
     import torchtree.distributions.tree_prior  # noqa
+    import torchtree.evolution.bdsk  # noqa
+    import torchtree.evolution.birth_death  # noqa
     import torchtree.evolution.coalescent  # noqa
     import torchtree.evolution.tree_likelihood  # noqa
 
@@ -219,6 +238,206 @@ def case_likelihood(tree_kind, site_kind, subst, categories=2, tip_states=False,
     return [like], params, 'm', {'heights_order': tree_kind != 'unrooted', 'likelihood': True, 'rescale': rescale}
 
 
+
+# ====================================================================== birth-death models: cases decided per path region
+# Parameter entries of these cases are 4-tuples (values, lo, hi, extra): extra = {'lo_closed', 'hi_closed', 'fixed': {index: constant}}
+BD_DATES = [0.5, 0.0, 0.2]  # t0 and t2 sampled serially (heights 0.5, 0.2), t1 sampled at the present: serial + contemporaneous tips
+REGION_PREFIXES = ('bdsk:', 'birthdeath:')
+# PiecewiseConstantBirthDeath.log_prob adds masked_select(N, mask) * masked_select(rho, mask).log() to log_p: one entry per rho-sampling
+# event with sampled tips over ALL samples; the case is recognised by counting those events per sample at the failing point
+SIG_RHO0 = 'bdsk:number of rho-sampling events with sampled tips differs between the samples:mixes-samples'
+SIG_RHO_BCAST = 'bdsk:rho [1] not batched, R or delta batched, more than one epoch:rho applied at every epoch end'
+
+
+def PX(vals, lo=None, hi=None, lo_closed=False, hi_closed=False, fixed=None):
+    return (vals, lo, hi, {'lo_closed': lo_closed, 'hi_closed': hi_closed, 'fixed': dict(fixed or {})})
+
+
+def bd_tree():
+    tree = cm.time_tree_json(((0, 1), 2), 3)
+    tree['taxa'] = cm.taxa_json(3, BD_DATES)
+    return tree
+
+
+def case_bdsk(m=1, origin='given', times='none', rho='short', survival=True, removal=False):
+    """BDSKModel on 3 taxa ((t0,t1),t2) with tip heights 0.5, 0, 0.2.  m epochs; origin: 'given' (a parameter), 'root_edge'
+    (the parameter is the length of the root edge), 'none' (the process starts at the root); times: 'none' (m equal epochs),
+    'abs' (a parameter [0, t1, ..] of times since the origin), 'rel' (the same as fractions of the origin); rho: 'none'
+    (default zeros), 'short' (one value: sampling at the present), 'full' (one value per epoch end); removal: removal
+    probability r per epoch.  Structural axes next to the sample axes: m epochs, m+1 epoch times, 3 tips, 2 internal nodes."""
+    js = {'id': 'm', 'type': 'BDSKModel', 'tree_model': bd_tree(), 'survival': survival,
+          'R': {'id': 'R', 'type': 'Parameter', 'tensor': [1.5, 1.7, 1.3][:m]},
+          'delta': {'id': 'delta', 'type': 'Parameter', 'tensor': [1.2, 1.1, 1.4][:m]},
+          's': {'id': 's', 'type': 'Parameter', 'tensor': [0.3, 0.4, 0.35][:m]}}
+    params = {'R': PX([1.5, 1.7, 1.3][:m], 0.0), 'delta': PX([1.2, 1.1, 1.4][:m], 0.0), 's': PX([0.3, 0.4, 0.35][:m], 0.0, 1.0),
+              'tree.heights': PX([1.0, 2.5])}
+    if rho != 'none':
+        v = [0.2] if rho == 'short' else [0.15, 0.25, 0.2][-m:]
+        js['rho'] = {'id': 'rho', 'type': 'Parameter', 'tensor': v}
+        params['rho'] = PX(v, 0.0, 1.0, lo_closed=True, hi_closed=True)
+    if origin == 'given':
+        js['origin'] = {'id': 'origin', 'type': 'Parameter', 'tensor': [4.0]}
+        params['origin'] = PX([4.0])
+    elif origin == 'root_edge':
+        js['origin'] = {'id': 'origin', 'type': 'Parameter', 'tensor': [0.9]}
+        js['origin_is_root_edge'] = True
+        params['origin'] = PX([0.9], 0.0, None, lo_closed=True)
+    else:
+        assert times == 'none'
+    if times != 'none':
+        v = ([0.0, 2.2] if m <= 2 else [0.0, 1.2, 2.7])[:m] if times == 'abs' else ([0.0, 0.55] if m <= 2 else [0.0, 0.3, 0.675])[:m]
+        if origin == 'root_edge' and times == 'abs':
+            v = ([0.0, 2.2] if m <= 2 else [0.0, 0.6, 2.1])[:m]
+        js['times'] = {'id': 'times', 'type': 'Parameter', 'tensor': v}
+        js['relative_times'] = times == 'rel'
+        params['times'] = PX(v, fixed={0: 0.0})
+    if removal:
+        js['removal_probability'] = {'id': 'r', 'type': 'Parameter', 'tensor': [0.7, 0.6, 0.5][:m]}
+        params['r'] = PX([0.7, 0.6, 0.5][:m], 0.0, 1.0)
+
+    def domain(d, view):
+        """constraints on ONE sample's view of the parameters (view: parameter -> list of nodes)"""
+        h0, h1 = view['tree.heights']
+        cs = [d.lt(d.const(max(BD_DATES[0], BD_DATES[1])), h0), d.lt(h0, h1)]  # parents above their children (tips are fixed)
+        if origin == 'given':
+            o = view['origin'][0]
+            cs.append(d.le(h1, o))
+        elif origin == 'root_edge':
+            o = d.add(view['origin'][0], h1)
+        else:
+            o = h1
+        if times != 'none':
+            ts = view['times']
+            for a, b in zip(ts, ts[1:]):
+                cs.append(d.lt(a, b))
+            cs.append(d.lt(ts[-1], o if times == 'abs' else d.const(1.0)))
+        if 'rho' in view:
+            for x in view['rho'][:-1]:
+                cs.append(d.lt(x, d.const(1.0)))  # log(1 - rho_i) of an inner rho-sampling event
+        return cs
+
+    def generic(d, view):
+        """the GENERIC stratum of one sample: every rho positive, no tip and no internal node exactly on an inner epoch boundary"""
+        from fractions import Fraction
+
+        h0, h1 = view['tree.heights']
+        o = view['origin'][0] if origin == 'given' else (d.add(view['origin'][0], h1) if origin == 'root_edge' else h1)
+        cs = [d.lt(d.const(0.0), x) for x in view.get('rho', [])]
+        for i in range(1, m):
+            if times == 'none':
+                tb = d.mul(d.const(Fraction(i, m)), o)
+            elif times == 'abs':
+                tb = view['times'][i]
+            else:
+                tb = d.mul(view['times'][i], o)
+            B = d.sub(o, tb)  # height of the boundary between epochs i-1 and i
+            cs += [d.not_(d.eq(B, x)) for x in (d.const(BD_DATES[2]), d.const(BD_DATES[0]), h0, h1)]
+        return cs
+
+    def rho_events(vals):
+        """number of epoch ends of ONE sample (vals: parameter -> floats) at which rho > 0 and at least one tip is sampled"""
+        if 'rho' not in vals:
+            return 0
+        h1 = vals['tree.heights'][1]
+        o = vals['origin'][0] if origin == 'given' else (vals['origin'][0] + h1 if origin == 'root_edge' else h1)
+        if times == 'none':
+            ts = [o * i / m for i in range(m)] + [o]
+        elif times == 'abs':
+            ts = list(vals['times']) + [o]
+        else:
+            ts = [t * o for t in vals['times']] + [o]
+        rr = [0.0] * (m - len(vals['rho'])) + list(vals['rho'])
+        n = 0
+        for i in range(1, m + 1):
+            B = 0.0 if i == m else o - ts[i]
+            if rr[i - 1] > 0 and any(abs(B - y) <= 1e-12 for y in BD_DATES):
+                n += 1
+        return n
+
+    return [js], params, 'm', {'region': True, 'domain': domain, 'generic': generic, 'rho_events': rho_events, 'epochs': m, 'rho_kind': rho}
+
+
+def case_birthdeath(survival=True):
+    """BirthDeathModel (constant rates) on the same tree; every parameter has one entry"""
+    js = {'id': 'm', 'type': 'BirthDeathModel', 'tree_model': bd_tree(), 'survival': survival,
+          'lambda': {'id': 'lambda', 'type': 'Parameter', 'tensor': [1.8]}, 'mu': {'id': 'mu', 'type': 'Parameter', 'tensor': [0.9]},
+          'psi': {'id': 'psi', 'type': 'Parameter', 'tensor': [0.4]}, 'rho': {'id': 'rho', 'type': 'Parameter', 'tensor': [0.2]},
+          'origin': {'id': 'origin', 'type': 'Parameter', 'tensor': [4.0]}}
+    params = {'lambda': PX([1.8], 0.0), 'mu': PX([0.9], 0.0), 'psi': PX([0.4], 0.0), 'rho': PX([0.2], 0.0, 1.0, lo_closed=True, hi_closed=True),
+              'origin': PX([4.0]), 'tree.heights': PX([1.0, 2.5])}
+
+    def domain(d, view):
+        h0, h1 = view['tree.heights']
+        return [d.lt(d.const(max(BD_DATES[0], BD_DATES[1])), h0), d.lt(h0, h1), d.le(h1, view['origin'][0])]
+
+    return [js], params, 'm', {'region': True, 'domain': domain}
+
+
+# ====================================================================== further callable models (one path region: no data-dependent control
+# beyond the order of the two internal heights, which the domain fixes)
+def _pm(id_, v):
+    return {'id': id_, 'type': 'Parameter', 'tensor': v}
+
+
+def _tree0():
+    tree = cm.time_tree_json(((0, 1), 2), 3)
+    tree['taxa'] = cm.taxa_json(3)
+    return tree
+
+
+def case_extra(kind):
+    opts = {}
+    if kind == 'GMRFCovariate':
+        m = {'id': 'm', 'type': 'GMRFCovariate', 'field': _pm('field', [0.1, 0.5, 0.2]), 'precision': _pm('tau', [1.5]),
+             'covariates': [[1.0, 0.5], [0.3, -0.2], [0.7, 0.9]], 'beta': _pm('beta', [0.4, -0.3])}
+        params = {'field': P([0.1, 0.5, 0.2]), 'tau': P([1.5], 0.01, None), 'beta': P([0.4, -0.3])}
+    elif kind == 'ConstantCoalescentIntegrated':
+        m = {'id': 'm', 'type': 'ConstantCoalescentIntegratedModel', 'tree_model': _tree0(), 'alpha': 2.0, 'beta': 1.5}
+        params = {'tree.heights': P([1.0, 2.5], 0.01, None)}
+        opts = {'heights_order': True}
+    elif kind == 'ScaleMixtureNormal':
+        m = {'id': 'm', 'type': 'ScaleMixtureNormal', 'x': _pm('x', [0.3, -0.2]), 'loc': 0.1, 'global_scale': _pm('gscale', [0.8]),
+             'local_scale': _pm('lscale', [0.5, 1.5])}
+        params = {'x': P([0.3, -0.2]), 'gscale': P([0.8], 0.01, None), 'lscale': P([0.5, 1.5], 0.01, None)}
+    elif kind == 'ScaleMixtureNormal/slab':
+        m = {'id': 'm', 'type': 'ScaleMixtureNormal', 'x': _pm('x', [0.3, -0.2]), 'loc': 0.1, 'global_scale': _pm('gscale', [0.8]),
+             'local_scale': _pm('lscale', [0.5, 1.5]), 'slab': _pm('slab', [2.0])}
+        params = {'x': P([0.3, -0.2]), 'gscale': P([0.8], 0.01, None), 'lscale': P([0.5, 1.5], 0.01, None), 'slab': P([2.0], 0.01, None)}
+    elif kind == 'BayesianBridge':
+        m = {'id': 'm', 'type': 'BayesianBridge', 'x': _pm('x', [0.3, -0.2]), 'scale': _pm('gscale', [0.8]), 'alpha': _pm('alpha', [0.5])}
+        params = {'x': P([0.3, -0.2]), 'gscale': P([0.8], 0.01, None), 'alpha': P([0.5], 0.01, None)}
+    elif kind == 'BayesianBridge/local scale + slab':
+        m = {'id': 'm', 'type': 'BayesianBridge', 'x': _pm('x', [0.3, -0.2]), 'scale': _pm('gscale', [0.8]),
+             'local_scale': _pm('lscale', [0.5, 1.5]), 'slab': _pm('slab', [2.0])}
+        params = {'x': P([0.3, -0.2]), 'gscale': P([0.8], 0.01, None), 'lscale': P([0.5, 1.5], 0.01, None), 'slab': P([2.0], 0.01, None)}
+    elif kind == 'DeterministicNormal':
+        m = {'id': 'm', 'type': 'DeterministicNormal', 'x': _pm('x', [0.3, -0.2]), 'loc': _pm('loc', [0.1, 0.4]), 'scale': _pm('scale', [0.5, 1.5]),
+             'shape': []}
+        params = {'x': P([0.3, -0.2]), 'loc': P([0.1, 0.4]), 'scale': P([0.5, 1.5], 0.01, None)}
+    elif kind == 'GMRFGammaIntegrated':
+        m = {'id': 'm', 'type': 'GMRFGammaIntegrated', 'x': _pm('field', [0.1, 0.5, 0.2]), 'shape': 2.0, 'rate': 1.5}
+        params = {'field': P([0.1, 0.5, 0.2])}
+    elif kind == 'GMRFGammaIntegrated/time-aware':
+        m = {'id': 'm', 'type': 'GMRFGammaIntegrated', 'x': _pm('field', [0.1, 0.5]), 'shape': 2.0, 'rate': 1.5, 'tree_model': _tree0()}
+        params = {'field': P([0.1, 0.5]), 'tree.heights': P([1.0, 2.5], 0.01, None)}
+        opts = {'heights_order': True}
+    elif kind == 'Distribution/OneOnX':
+        m = {'id': 'm', 'type': 'Distribution', 'distribution': 'torchtree.distributions.one_on_x.OneOnX', 'x': _pm('x', [0.3, 0.7])}
+        params = {'x': P([0.3, 0.7], 0.01, None)}
+    elif kind == 'Distribution/LogNormal':
+        m = {'id': 'm', 'type': 'Distribution', 'distribution': 'torchtree.distributions.log_normal.LogNormal', 'x': _pm('x', [0.3, 0.7]),
+             'parameters': {'mean': _pm('mean', [0.1]), 'scale': _pm('scale', [0.5])}}
+        params = {'x': P([0.3, 0.7], 0.01, None), 'mean': P([0.1], 0.01, None), 'scale': P([0.5], 0.01, None)}
+    else:
+        raise KeyError(kind)
+    return [m], params, 'm', opts
+
+
+EXTRA_KINDS = ['GMRFCovariate', 'ConstantCoalescentIntegrated', 'ScaleMixtureNormal', 'ScaleMixtureNormal/slab', 'BayesianBridge',
+               'BayesianBridge/local scale + slab', 'DeterministicNormal', 'GMRFGammaIntegrated', 'GMRFGammaIntegrated/time-aware',
+               'Distribution/OneOnX', 'Distribution/LogNormal']
+
+
 CASES = {
     'coalescent:constant': lambda: case_coalescent('constant'),
     'coalescent:exponential': lambda: case_coalescent('exponential'),
@@ -259,6 +478,36 @@ CASES = {
     'likelihood:unrooted/weibull3/HKY/rescaled': lambda: case_likelihood('unrooted', 'weibull', 'HKY', categories=3, rescale=True),
     'likelihood:unrooted/weibull/HKY/tip-states/rescaled': lambda: case_likelihood('unrooted', 'weibull', 'HKY', tip_states=True, rescale=True),
 }
+
+for _k in EXTRA_KINDS:
+    CASES['extra:' + _k] = (lambda k: (lambda: case_extra(k)))(_k)
+# birth-death models (decided per path region, see run_region_task); 'thorough': only in the thorough tier
+BD_VARIANTS = {
+    'bdsk:1 epoch/origin/rho/survival': (dict(m=1), 'quick'),
+    'bdsk:1 epoch/origin/times abs/rho/no survival': (dict(m=1, times='abs', survival=False), 'quick'),
+    'bdsk:1 epoch/root edge/rho/removal/survival': (dict(m=1, origin='root_edge', removal=True), 'quick'),
+    'bdsk:2 epochs/origin/rho/survival': (dict(m=2), 'quick'),
+    'bdsk:2 epochs/origin/times abs/rho/no survival': (dict(m=2, times='abs', survival=False), 'quick'),
+    'bdsk:2 epochs/origin/times rel/rho per epoch/survival': (dict(m=2, times='rel', rho='full'), 'quick'),
+    'bdsk:2 epochs/no origin/no rho/survival': (dict(m=2, origin='none', rho='none'), 'quick'),
+    'bdsk:2 epochs/root edge/times rel/rho/no survival': (dict(m=2, origin='root_edge', times='rel', survival=False), 'thorough'),
+    'bdsk:1 epoch/no origin/rho/no survival': (dict(m=1, origin='none', survival=False), 'thorough'),
+    'bdsk:1 epoch/origin/times rel/no rho/removal/no survival': (dict(m=1, times='rel', rho='none', removal=True, survival=False), 'thorough'),
+    'bdsk:2 epochs/origin/times abs/rho per epoch/survival': (dict(m=2, times='abs', rho='full'), 'thorough'),
+    'bdsk:2 epochs/root edge/times abs/rho/survival': (dict(m=2, origin='root_edge', times='abs'), 'thorough'),
+    'bdsk:2 epochs/no origin/rho/no survival': (dict(m=2, origin='none', survival=False), 'thorough'),
+    'bdsk:3 epochs/origin/rho/survival': (dict(m=3), 'thorough'),
+    'bdsk:3 epochs/origin/times abs/rho per epoch/removal/no survival': (dict(m=3, times='abs', rho='full', removal=True, survival=False), 'thorough'),
+    'bdsk:3 epochs/origin/times rel/rho/survival': (dict(m=3, times='rel'), 'thorough'),
+    'bdsk:3 epochs/no origin/no rho/survival': (dict(m=3, origin='none', rho='none'), 'thorough'),
+    'bdsk:3 epochs/root edge/rho/no survival': (dict(m=3, origin='root_edge', survival=False), 'thorough'),
+}
+for _k, (_kw, _tier) in BD_VARIANTS.items():
+    CASES[_k] = (lambda kw: (lambda: case_bdsk(**kw)))(_kw)
+CASES['birthdeath:survival'] = lambda: case_birthdeath(True)
+CASES['birthdeath:no survival'] = lambda: case_birthdeath(False)
+BD_VARIANTS['birthdeath:survival'] = ({}, 'quick')
+BD_VARIANTS['birthdeath:no survival'] = ({}, 'quick')
 
 # number of rate categories of a likelihood case (the structural axis next to the sample axes in mats / partials / props)
 CATS = {'constant': 1, 'constant+mu': 1, 'invariant': 2, 'weibull': 2, 'weibull3': 3, 'weibull4': 4, 'weibull5': 5}
@@ -398,9 +647,12 @@ def run_task(task, tr):
     idxs = sample_indices(shape)
     nS = len(idxs)
     label = label_of(cname, batched, shape)
+    if cname.startswith(REGION_PREFIXES):
+        return run_region_task(task, tr)
     tr.fn(coremodel.CallableModel.__call__, JointDistributionModel.log_prob, TreeLikelihoodModel._call)
     tr.bounds['shapes'] = ('sample shape [2] for every case; quick: all-batched, each-one-unbatched, each-one-batched; '
-                           'thorough: every subset at [2], and the quick selection at [3] and [2,2]; likelihood cases: see "likelihood"')
+                           'thorough: every subset at [2], and the quick selection at [3] and [2,2]; likelihood cases: see "likelihood"; '
+                           'birth-death cases: see "birth-death"; extra: cases: [2] and [3] (quick), every subset and [2,2] (thorough)')
     specs, params, target, opts = CASES[cname]()
     if opts.get('likelihood'):
         tr.fn(tl.calculate_treelikelihood_discrete, tl.calculate_treelikelihood_tip_states_discrete,
@@ -533,7 +785,8 @@ def run_task(task, tr):
 
         # vacuity guard (solver): two samples must be able to produce different values, otherwise mixing
         # could not be observed
-        if nS >= 2 and vb.dim() >= len(shape) and tuple(vb.shape[:len(shape)]) == shape:
+        shape_failed = any(g[1] == d.FALSE for g in goals)  # the value is not one entry per sample: a violation candidate, no guard needed
+        if nS >= 2 and vb.dim() >= len(shape) and tuple(vb.shape[:len(shape)]) == shape and not shape_failed:
             a0, a1 = vb[idxs[0]].reshape(-1).tolist(), vb[idxs[1]].reshape(-1).tolist()
             cands = [(d.size([x, y]), d.eq(x, y)) for x, y in zip(a0, a1) if x != y]
             if not cands:
@@ -595,6 +848,489 @@ def run_task(task, tr):
         for v in tr.violations[before:]:
             if isinstance(v.get('replay'), dict):
                 v['replay'].update({'case': cname, 'batched': sorted(batched), 'shape': list(shape)})
+
+
+# ====================================================================== region-enumerating tasks (birth-death models)
+class EngineLimit(Exception):
+    pass
+
+
+def px(params, p):
+    e = params[p]
+    return e if len(e) == 4 else (e[0], e[1], e[2], {'lo_closed': False, 'hi_closed': False, 'fixed': {}})
+
+
+def sym_names(p, idx, n):
+    return cm.names_shaped(p if idx is None else f'{p}@{tag_of(idx)}', (n,))
+
+
+def region_inputs(params, batched, idxs):
+    """name -> initial witness value of every symbol: shared parameters once, batched ones per sample (distinct values)"""
+    nS = len(idxs)
+    W = {}
+    for p in params:
+        vals, lo, hi, ex = px(params, p)
+        for k, idx in (list(enumerate(idxs)) if p in batched else [(0, None)]):
+            off = 0.0 if idx is None else offset_of(k, nS)
+            for i, (nm, v) in enumerate(zip(sym_names(p, idx, len(vals)), vals)):
+                if i not in ex['fixed']:
+                    W[nm] = v + (hi - v) * off / (1 + off) if hi is not None else v * (1 + off)
+    return W
+
+
+def region_nodes(d, V, params, p, idx):
+    vals, lo, hi, ex = px(params, p)
+    return [d.const(ex['fixed'][i]) if i in ex['fixed'] else V[nm] for i, nm in enumerate(sym_names(p, idx, len(vals)))]
+
+
+def region_domain(params, batched, idxs, case_domain, case_generic=None, stratum='all', on_float_tie=None):
+    def domain(d, V):
+        cs = []
+        gen = []
+        for p in params:
+            vals, lo, hi, ex = px(params, p)
+            for idx in (idxs if p in batched else [None]):
+                for i, nm in enumerate(sym_names(p, idx, len(vals))):
+                    if i in ex['fixed']:
+                        continue
+                    if lo is not None:
+                        cs.append((d.le if ex['lo_closed'] else d.lt)(d.const(lo), V[nm]))
+                    if hi is not None:
+                        cs.append((d.le if ex['hi_closed'] else d.lt)(V[nm], d.const(hi)))
+        if case_domain is not None:
+            for idx in idxs:
+                view = {p: region_nodes(d, V, params, p, idx if p in batched else None) for p in params}
+                cs += case_domain(d, view)
+                if case_generic is not None:
+                    gen += case_generic(d, view)
+        if stratum == 'generic':
+            cs += gen
+        elif stratum == 'boundary':
+            # the complement of the generic stratum inside the domain (a closed, lower-dimensional set)
+            c = d.or_(*[d.not_(g) for g in gen]) if gen else d.FALSE
+            if c not in (d.TRUE, d.FALSE) and not d.vals[c] and on_float_tie is not None:
+                # the solver's point satisfies a tie `origin - t == height` over the reals, but not after rounding to float64: the
+                # witness execution (real torch) leaves the stratum.  The region it reaches is explored all the same; for this one
+                # iteration the stratum constraint is dropped (the closure query then asks about the whole domain: more, not less)
+                on_float_tie()
+            else:
+                cs.append(c)
+        out = []
+        for c in cs:
+            if c != d.TRUE and c not in out:
+                out.append(c)
+        return out
+
+    return domain
+
+
+def pins_at_witness(d, V, roots):
+    """every input symbol and uninterpreted application below `roots` fixed at its value in the explicit witness model"""
+    from fractions import Fraction
+
+    m = exact_model(d, list(roots) + list(V.values())) or {}
+    out = []
+    for n in sorted(set(d.topo(list(roots))) | set(V.values())):
+        if d.ops[n] in ('var', 'uf') and math.isfinite(d.vals[n]):
+            out.append(d.eq(n, d.const(m.get(n, Fraction(d.vals[n])))))
+    return out
+
+
+def vacuity_guard(tr, d, hyps, V, vb, idxs, label, W=None):
+    """solver question `can two samples give different values` (sat expected): otherwise mixing could not be observed"""
+    from symtorch.explore import prove
+
+    a0, a1 = vb[idxs[0]].reshape(-1).tolist(), vb[idxs[1]].reshape(-1).tolist()
+    cands = [(d.size([x, y]), d.eq(x, y)) for x, y in zip(a0, a1) if x != y]
+    if not cands:
+        tr.inconc(f'{label}: vacuity guard: the value does not depend on the batched parameters')
+        return
+    guard = min(cands)[1]
+    st, r, _ = prove(d, hyps + pins_at_witness(d, V, [guard]), guard, timeout=PIN_TIMEOUT, solvers=('z3',), tr=tr,
+                     label='vacuity guard (witness point)')
+    if st != 'refuted' and model_separates(d, hyps, guard):
+        st = 'refuted'
+        tr.notes.append(f'{label}: vacuity guard settled by an explicit model (witness point, exact rational evaluation)')
+    if st != 'refuted' and W is not None:
+        # the region witness came from the solver and gives both samples the same values: a generic point of the same region
+        P = generic_point(d, hyps, V, W)
+        if P and differs_at(d, [tuple(d.args[guard])], P):
+            st = 'refuted'
+            tr.notes.append(f'{label}: vacuity guard settled by evaluating both samples at a generic point of the region')
+    if st != 'refuted':
+        st, r, _ = prove(d, hyps, guard, timeout=30, tr=tr, label='vacuity guard', parallel=True)
+    if st == 'proved':
+        tr.inconc(f'{label}: vacuity guard: both samples always give the same value')
+    elif st != 'refuted':
+        tr.inconc(f'{label}: vacuity guard undecided: no model found in which two samples differ')
+
+
+def generic_point(d, hyps, V, W):
+    """A point of the SAME region (domain and path conditions re-evaluated in floats) in which as many input symbols as the region
+    allows are moved off the solver's model: the closure query returns degenerate points (every sample with the same values), at
+    which a value that mentions the wrong sample's symbols cannot be told from the right one."""
+    import random
+
+    rnd = random.Random(20260927)
+    hy = [h for h in hyps if h != d.TRUE]
+
+    def ok(env):
+        try:
+            ev = d.evaluate(hy, env)
+        except Exception:  # noqa
+            return False
+        return all(bool(ev[h]) for h in hy)
+
+    env = {n: float(W[n]) for n in V}
+    if not ok(env):
+        return None
+    moved = 0
+    for nm in sorted(V):
+        if env[nm] == 0:
+            continue
+        for scale in (0.23, 0.11, 0.04, 0.01):
+            e2 = dict(env)
+            e2[nm] = env[nm] * (1 + scale * rnd.uniform(0.4, 1.0) * rnd.choice((-1, 1)))
+            if ok(e2):
+                env = e2
+                moved += 1
+                break
+    return env if moved else None
+
+
+def differs_at(d, pairs, env):
+    """the two sides of some equality differ visibly at the point env (float evaluation of the recorded expressions)"""
+    try:
+        ev = d.evaluate([n for pr in pairs for n in pr], env)
+    except Exception:  # noqa
+        return False
+    for x, y in pairs:
+        a, b = ev[x], ev[y]
+        if math.isfinite(a) and math.isfinite(b) and abs(a - b) > 1e-8 * max(1.0, abs(a), abs(b)):
+            return True
+    return False
+
+
+def point_of(domain, W0, epochs=1):
+    """a point of the (stratum of the) domain to start the enumeration from: the solver's model, with every symbol that can keep its
+    generic initial value put back to it.  Returns (point or None, status)."""
+    from symtorch.explore import _to_float, prove
+
+    with tracing() as t:
+        d = t.dag
+        V = {n: d.var(n, float(v)) for n, v in W0.items()}
+        dom = domain(d, V)
+        if all(d.vals[c] for c in dom):
+            return dict(W0), 'initial'
+        # first with every symbol but those of the LAST sample view of heights / origin / times / rho pinned at its initial value
+        # (a small linear problem), then unpinned
+        free = [n for n in V if n.split('[')[0].split('@')[0] in ('tree.heights', 'origin', 'times', 'rho')]
+        last = sorted({n.split('[')[0].split('@')[1] for n in free if '@' in n})[-1:]
+        free = [n for n in free if '@' not in n or n.split('[')[0].split('@')[1] in last]
+        pins = [d.eq(V[n], d.const(float(W0[n]))) for n in V if n not in free]
+        # a tie `origin - origin * i / m == height` has to hold in float64 as well (the witness execution is real torch): the total
+        # height of the process is first tried at small multiples of the number of epochs, where the epoch boundaries are exact
+        top = [n for n in free if n.startswith('origin') or (n.startswith('tree.heights') and n.endswith('[1]'))]
+
+        def ok(env):
+            ev = d.evaluate(dom, env)
+            return all(bool(ev[c]) for c in dom)
+
+        M = None
+        status = 'unknown'
+        for extra, to, par in [([d.eq(V[n], d.const(float(nice))) for n in top[-1:]], 20, False) for nice in (epochs, 2 * epochs, 4 * epochs)] \
+                + [([], 20, False), (None, 90, True)]:
+            st, r, _ = prove(d, dom + (pins + extra if extra is not None else []), d.FALSE, timeout=to, get_values=list(V.values()), parallel=par)
+            if st == 'proved' and extra is None:
+                return None, 'empty'
+            if st == 'refuted':
+                cand = {n: _to_float(r.values[V[n]]) for n in V}
+                if ok(cand):
+                    M = cand
+                    break
+                status = 'the points the solver returned do not satisfy the tie conditions in float64'
+        if M is None:
+            return None, status
+        for n in sorted(V):
+            e2 = dict(M)
+            e2[n] = float(W0[n])
+            if ok(e2):
+                M = e2
+        return M, 'solver'
+
+
+def tie_substitution(tr, d, hyps, V):
+    """{symbol: representative or the constant 0} for the input symbols that the region forces to be equal (candidates: equal witness values;
+    each equality is PROVED from the domain and the path conditions before it is used).  On a lower-dimensional region
+    (e.g. two samples with exactly the same root height) the two executions build different expressions for the same value;
+    after this substitution they are compared syntactically again."""
+    from symtorch.explore import prove
+
+    by_val = {}
+    for n in sorted(V.values()):
+        by_val.setdefault(d.vals[n], []).append(n)
+    mapping = {}
+    for n in by_val.pop(0.0, []):
+        # a symbol that the region pins to the boundary value 0 of its domain (rho = 0)
+        st, _, _ = prove(d, hyps, d.eq(n, 0), timeout=15, tr=tr, label='tie lemma: an input symbol is zero on this region', parallel=True)
+        if st == 'proved':
+            mapping[n] = 0
+    for group in by_val.values():
+        reps = []
+        for n in group:
+            for r0 in reps:
+                # symbols of the same parameter first (R@0[1] ~ R@1[1]); a tie between unrelated parameters is possible but rare
+                st, _, _ = prove(d, hyps, d.eq(n, r0), timeout=15, tr=tr, label='tie lemma: two input symbols are equal on this region', parallel=True)
+                if st == 'proved':
+                    mapping[n] = r0
+                    break
+            else:
+                reps.append(n)
+    return mapping
+
+
+
+
+def run_region_task(task, tr):
+    """Birth-death models: the density takes data-dependent decisions (searchsorted of event times into the epochs, tips exactly
+    on an epoch boundary, rho = 0 or > 0), so one symbolic execution covers one path region.  Batched run and per-slice runs are
+    executed in ONE trace per region (their decisions together are the region), the per-sample equalities are decided on the
+    region, the region is blocked and the solver is asked for a point of the domain outside all explored regions."""
+    import time
+
+    from symtorch.explore import Explorer, Goal, triage
+    from symtorch.expr import EngineError
+    from symtorch.tensor import UnsupportedOp
+    from torchtree.core import model as coremodel
+    from torchtree.evolution.bdsk import BDSKModel, PiecewiseConstantBirthDeath, epidemiology_to_birth_death
+    from torchtree.evolution.birth_death import BirthDeath, BirthDeathModel
+
+    cname, batched = task[0], frozenset(task[1])
+    shape = tuple(task[2])
+    stratum = task[3] if len(task) > 3 else 'all'
+    region_cap, seconds = task[4] if len(task) > 4 else (12, 40.0)
+    idxs = sample_indices(shape)
+    label = label_of(cname, batched, shape) + (f' [{stratum} stratum]' if stratum != 'all' else '')
+    specs, params, target, opts = CASES[cname]()
+    if cname.startswith('bdsk:'):
+        tr.fn(coremodel.CallableModel.__call__, BDSKModel._call, epidemiology_to_birth_death, PiecewiseConstantBirthDeath.log_prob,
+              PiecewiseConstantBirthDeath.log_p, PiecewiseConstantBirthDeath.log_q, PiecewiseConstantBirthDeath.p0)
+    else:
+        tr.fn(coremodel.CallableModel.__call__, BirthDeathModel._call, BirthDeath.log_prob, BirthDeath.log_p, BirthDeath.log_q)
+    tr.bounds['birth-death'] = BOUNDS_BD
+    tr.assumptions.add('birth-death cases: 3 taxa, topology ((t0,t1),t2), tip heights 0.5 / 0 / 0.2 fixed (taxon dates are data); domain: '
+                       'R, delta, lambda, mu, psi > 0, 0 < s < 1, 0 < r < 1, 0 <= rho <= 1 (inner rho < 1), internal heights above their children, '
+                       'origin >= root height (root edge >= 0), epoch times 0 < t1 < .. < origin (fractions: < 1); the first epoch time is the constant 0')
+    state = {'raised': [], 'returned': 0, 'slice_raises': 0, 'guard': False, 'stop': False, 'float_ties': 0}
+    def float_tie():
+        state['float_ties'] += 1
+
+    domain = region_domain(params, batched, idxs, opts.get('domain'), opts.get('generic') if stratum != 'all' else None, stratum, float_tie)
+
+    def tensors(d, V, obj, idx):
+        """idx None: the batched assignment; otherwise the slice of sample idx"""
+        for p in params:
+            if p in batched and idx is None:
+                ids = torch.tensor([region_nodes(d, V, params, p, i) for i in idxs], dtype=torch.int64)
+                obj[p].tensor = from_ids(ids.reshape(shape + (ids.shape[-1],)))
+            else:
+                obj[p].tensor = from_ids(torch.tensor(region_nodes(d, V, params, p, idx if p in batched else None), dtype=torch.int64))
+
+    def signature(W):
+        ev = opts.get('rho_events')
+        if ev is not None:
+            def vals(idx):
+                out = {}
+                for p in params:
+                    base, _, _, ex_ = px(params, p)
+                    out[p] = [ex_['fixed'][i] if i in ex_['fixed'] else W[nm]
+                              for i, nm in enumerate(sym_names(p, idx if p in batched else None, len(base)))]
+                return out
+
+            if len({ev(vals(idx)) for idx in idxs}) > 1:
+                return SIG_RHO0
+        return f'{cname}:batched={sorted(batched)}:mixes-samples'
+
+    def body(t, V, W):
+        d = t.dag
+        A = build(specs)
+        try:
+            tensors(d, V, A, None)
+            val = evaluate(A[target], opts)
+        except UnsupportedOp as e:
+            raise EngineLimit(f'{type(e).__name__}: {e}')
+        except EngineError:
+            raise
+        except Exception as e:  # unsupported shape combination: allowed to fail loudly
+            state['raised'].append(f'{type(e).__name__}: {e}')
+            tr.obligation(f'raises:{label}', nontrivial=False)
+            return []
+        state['returned'] += 1
+        sig = signature(W)
+        if not isinstance(val, SymTensor):
+            return [Goal(f'{label}: the value is a constant (does not depend on any parameter)', d.FALSE, signature=sig)]
+        vb = val._ids
+        if vb.dim() < len(shape) or tuple(vb.shape[:len(shape)]) != shape or vb.numel() % len(idxs):
+            state['stop'] = True
+            return [Goal(f'value has one entry per sample (shape {tuple(vb.shape)})', d.FALSE, signature=f'{cname}:batched={sorted(batched)}:shape')]
+        goals = []
+        ties = generic = None
+        for idx in idxs:
+            s = tag_of(idx)
+            B = build(specs)
+            try:
+                tensors(d, V, B, idx)
+                vs = evaluate(B[target], opts)
+            except UnsupportedOp as e:
+                raise EngineLimit(f'{type(e).__name__}: {e}')
+            except EngineError:
+                raise
+            except Exception as e:  # no reference value for this sample on this region
+                state['slice_raises'] += 1
+                if state['slice_raises'] == 1:
+                    tr.notes.append(f'{label}: the evaluation of slice {s} alone raises on a region ({type(e).__name__}: {str(e)[:60]}): no reference '
+                                    f'value for that sample there (further regions of this kind are counted in "birth-death: coverage of this run")')
+                continue
+            tr.witness_runs += 1
+            a = vb[idx].reshape(-1).tolist()
+            b = vs._ids.reshape(-1).tolist()
+            what = f'sample {s}: value[{s}] == value computed from slice {s} alone'
+            if len(a) != len(b):
+                goals.append(Goal(f'sample {s}: slice value has the same number of entries', d.FALSE, signature=f'{cname}:batched={sorted(batched)}:shape'))
+                continue
+            g = d.and_(*[d.eq(x, y) for x, y in zip(a, b)])
+            if g not in (d.TRUE, d.FALSE) and witness_differs(d, g):
+                # the two executions already differ at this region's witness: nothing to prove, the point goes to the replay
+                x, y = [d.vals[i] for i in a], [d.vals[i] for i in b]
+                goals.append(Goal(f'{what} (at the region witness: batched {x}, slice alone {y})', d.FALSE, signature=sig))
+                continue
+            if g not in (d.TRUE, d.FALSE):
+                if generic is None:
+                    generic = generic_point(d, domain(d, V) + list(t.pcs), V, W) or {}
+                if generic and differs_at(d, list(zip(a, b)), generic):
+                    goals.append(Goal(f'{what} (differs at a generic point of the region)', d.FALSE, signature=sig, info=generic))
+                    continue
+                if ties is None:
+                    ties = tie_substitution(tr, d, domain(d, V) + list(t.pcs), V)
+                if ties:
+                    g = d.substitute([g], ties)[0]
+                    what += ' (input symbols that the region forces to be equal identified, each equality proved first)'
+            goals.append(Goal(what, g, hyps=[] if g in (d.TRUE, d.FALSE) else ground_axioms(d, [g]), signature=sig))
+        if any(g.node != d.TRUE and g.signature != SIG_RHO0 for g in goals):
+            state['stop'] = True
+        if not state['guard'] and len(idxs) >= 2:
+            state['guard'] = True
+            vacuity_guard(tr, d, domain(d, V) + list(t.pcs), V, vb, idxs, label, W)
+        if state['stop']:
+            # a candidate counterexample exists: it is replayed on the real code; no further regions for this configuration
+            ex.max_regions = 0
+            ex.require_closure = False
+        return goals
+
+    nviol = len(tr.violations)
+    strict = region_domain(params, batched, idxs, opts.get('domain'), opts.get('generic') if stratum != 'all' else None, stratum)
+    start, how = point_of(strict, region_inputs(params, batched, idxs), opts.get('epochs', 1))
+    if start is None:
+        if how == 'empty':
+            tr.notes.append(f'{label}: this stratum of the domain is empty (solver: unsat)')
+        else:
+            tr.inconc(f'{label}: no starting point of the stratum found (solver: {how})')
+        return
+    ex = Explorer(start, domain, body, tr, max_regions=region_cap, timeout=40.0, closure_timeout=30.0,
+                  label=label, check_defined=False, deadline=time.time() + seconds, require_closure=False, parallel=True)
+    try:
+        out = ex.run()
+    except EngineLimit as e:
+        try:
+            rep, detail = replay_region_case(cname, batched, {}, shape)
+        except Exception as e2:  # noqa
+            rep, detail = None, f'{type(e2).__name__}: {e2}'
+        if rep is False and detail.startswith('batched evaluation raises'):
+            tr.notes.append(f'{label}: raises ({detail[:80]}) - accepted (decided on the real code; the engine stopped at: {str(e)[:60]})')
+            tr.obligation(f'raises:{label}', nontrivial=False)
+        elif rep:
+            tr.violation(f'{cname}:batched={sorted(batched)}:mixes-samples', f'{label}: witness replay on the real code: {detail}',
+                         {'label': label, 'values': {}, 'case': cname, 'batched': sorted(batched), 'shape': list(shape)})
+        else:
+            tr.inconc(f'{label}: symbolic engine limitation ({str(e)[:80]}) and the real code returns a value: undecided')
+        return
+    for smp in out.region_samples[:1]:
+        smp['case'] = label
+        tr.sample(smp)
+    # a candidate found at a generic point of a region is replayed at that point (the solver's own model of the region may be degenerate)
+    out.failed = [(g, (g.info if isinstance(g.info, dict) else model), k, w) for g, model, k, w in out.failed]
+    triage(out, lambda vals: replay_region_case(cname, batched, vals, shape), tr, label,
+           {'label': label, 'case': cname, 'batched': sorted(batched), 'shape': list(shape)})
+    if opts.get('rho_kind') == 'short' and opts.get('epochs', 1) > 1 and 'rho' not in batched and batched & {'R', 'delta'}:
+        # diagnosis of a reproduced discrepancy: is it the one-value rho being broadcast over the epochs (sampling at EVERY epoch end)
+        # instead of being padded with zeros as in the un-batched evaluation?  Only then the case gets that signature.
+        for v in tr.violations[nviol:]:
+            if v['signature'] == f'{cname}:batched={sorted(batched)}:mixes-samples':
+                ok, detail = replay_region_case(cname, batched, (v.get('replay') or {}).get('values') or {}, shape,
+                                                slice_override={'rho': lambda x: list(x) * opts['epochs']})
+                if ok is False and detail == 'agree':
+                    v['signature'] = SIG_RHO_BCAST
+                    v['what'] += ' [diagnosis: every sample equals the slice value computed with rho applied at the end of every epoch]'
+    if state['float_ties']:
+        tr.notes.append(f'{label}: {state["float_ties"]} point(s) of the stratum returned by the solver satisfy their tie condition over the reals only '
+                        f'(not in float64): the witness execution left the stratum there')
+    nraised = len(state['raised'])
+    if nraised and not state['returned']:
+        tr.notes.append(f'{label}: raises ({state["raised"][0][:80]}) - accepted: fails with an error rather than returning a number')
+        kind = 'raises'
+    elif nraised:
+        tr.notes.append(f'{label}: raises on {nraised} of {out.regions} regions ({state["raised"][0][:60]}), returns on the others')
+        kind = 'returns/raises'
+    else:
+        kind = 'returns'
+    tr.notes.append(f'BD-COVERAGE|{cname}|{list(shape)}|{kind}|{"certificate" if out.closed else "explored regions only"}|{out.regions}|{stratum}|{state["slice_raises"]}')
+
+
+def replay_region_case(cname, batched, vals, shape, slice_override=None):
+    """plain tensors on the real code: batched evaluation against per-slice evaluations of freshly built copies.  Values that the
+    counterexample does not name take the initial witness; no value is altered.  slice_override {parameter: list -> list} rewrites a
+    parameter of the per-slice evaluations only (used to DIAGNOSE a reproduced discrepancy, never to decide one)."""
+    specs, params, target, opts = CASES[cname]()
+    shape = tuple(shape)
+    idxs = sample_indices(shape)
+    W = region_inputs(params, batched, idxs)
+    W.update({k: float(v) for k, v in vals.items() if k in W})
+
+    def value(p, idx):
+        base, lo, hi, ex = px(params, p)
+        return [ex['fixed'][i] if i in ex['fixed'] else W[nm] for i, nm in enumerate(sym_names(p, idx, len(base)))]
+
+    A = build(specs)
+    try:
+        for p in params:
+            if p in batched:
+                A[p].tensor = torch.tensor([value(p, idx) for idx in idxs], dtype=torch.float64).reshape(shape + (-1,))
+            else:
+                A[p].tensor = torch.tensor(value(p, None), dtype=torch.float64)
+        val = evaluate(A[target], opts).to(torch.float64)
+    except Exception as e:
+        return False, f'batched evaluation raises ({type(e).__name__}): accepted'
+    if val.dim() < len(shape) or tuple(val.shape[:len(shape)]) != shape:
+        return True, f'value has shape {tuple(val.shape)}: not one entry per sample of sample shape {list(shape)}'
+    noref = []
+    for idx in idxs:
+        B = build(specs)
+        for p in params:
+            v = value(p, idx if p in batched else None)
+            B[p].tensor = torch.tensor((slice_override or {}).get(p, lambda x: x)(v), dtype=torch.float64)
+        try:
+            vs = evaluate(B[target], opts).to(torch.float64)
+        except Exception as e:  # no reference value for THIS sample (as in the symbolic run); the other samples are still compared
+            noref.append(f'slice {tag_of(idx)} alone raises ({type(e).__name__})')
+            continue
+        if not bool(torch.isfinite(vs).all()):
+            noref.append(f'slice {tag_of(idx)} alone gives {vs.tolist()}')
+            continue
+        if vs.numel() != val[idx].numel() or not torch.allclose(val[idx].reshape(-1), vs.reshape(-1), rtol=1e-8, atol=1e-10):
+            return True, f'sample {tag_of(idx)}: batched value {val[idx].tolist()} but slice alone gives {vs.tolist()}'
+    if noref:
+        return False, 'agree where a reference value exists (' + '; '.join(noref) + ')'
+    return False, 'agree'
 
 
 def replay_case(cname, batched, vals, shape=(S,)):
@@ -666,6 +1402,7 @@ def subsets(names, tier):
 
 
 BOUNDS_LIKE = ''  # set by body()
+BOUNDS_BD = ''  # set by body()
 
 
 def like_subsets(params, tier):
@@ -688,7 +1425,7 @@ def like_subsets(params, tier):
     return out
 
 
-OLD_CASES = [c for c in CASES if not c.startswith('likelihood:')] + [
+OLD_CASES = [c for c in CASES if not c.startswith(('likelihood:', 'extra:') + REGION_PREFIXES)] + [
     'likelihood:unrooted/constant/JC69', 'likelihood:strict/weibull/JC69', 'likelihood:simple/invariant/JC69',
     'likelihood:unrooted/weibull/HKY', 'likelihood:strict/constant/HKY']
 
@@ -746,6 +1483,42 @@ LIKE_SHAPES = {
 # like_subsets(quick) for sample shapes [S,K]
 # other (non-likelihood) cases, thorough tier only: further sample shapes with the quick subset selection
 OTHER_SHAPES_THOROUGH = [(3,), (2, 2)]
+# birth-death cases: [2] collides with 2 epochs and 2 internal nodes, [3] with 3 taxa, 3 epochs and the 3 epoch times of a 2-epoch model
+BD_SHAPES = {'quick': [(2,), (3,)], 'thorough': [(2,), (3,), (2, 2)]}
+
+
+def bd_tasks(tier):
+    """(case, batched subset, sample shape, stratum, (region budget, seconds)).  One epoch / constant rates: the whole domain in one
+    task (few regions, coverage certificate).  More epochs: the generic stratum (every rho > 0, no event exactly on an inner epoch
+    boundary) and its complement (`boundary`) are separate tasks; the budget says how far the enumeration goes."""
+    thorough = tier == 'thorough'
+    ts = []
+    for cname, (kw, ctier) in BD_VARIANTS.items():
+        if ctier == 'thorough' and not thorough:
+            continue
+        _, params, _, _ = CASES[cname]()
+        m = kw.get('m', 1)
+        allp = frozenset(params)
+        for shape in BD_SHAPES['thorough' if thorough else 'quick']:
+            every = thorough and shape == (2,) and m == 1
+            for sub in subsets(params.keys(), 'thorough' if every else 'quick'):
+                full = sub == allp
+                if m == 1:
+                    ts.append((cname, sub, shape, 'all', (80, 120.0) if thorough else (20, 40.0)))
+                elif not thorough:
+                    # [2]: 16 / 25 regions cover the generic stratum (certificate); [3] needs 64 / 125: thorough tier
+                    ts.append((cname, sub, shape, 'generic', (40, 40.0) if shape == (2,) else (10, 25.0)))
+                    ts.append((cname, sub, shape, 'boundary', (6, 20.0)))
+                elif m == 2:
+                    gen = {(2,): (60, 120.0), (3,): (150, 300.0) if full else (24, 60.0), (2, 2): (60, 150.0) if full else (12, 45.0)}[shape]
+                    bnd = (140, 360.0) if (shape == (2,) and full) else (12, 45.0)
+                    ts.append((cname, sub, shape, 'generic', gen))
+                    ts.append((cname, sub, shape, 'boundary', bnd))
+                else:
+                    gen = (260, 480.0) if (shape == (2,) and full) else ((24, 60.0) if shape != (2, 2) else (12, 45.0))
+                    ts.append((cname, sub, shape, 'generic', gen))
+                    ts.append((cname, sub, shape, 'boundary', (12, 45.0)))
+    return ts
 
 
 def tasks_for(tier):
@@ -771,6 +1544,13 @@ def tasks_for(tier):
             for shape in OTHER_SHAPES_THOROUGH:
                 for sub in subsets(params.keys(), 'quick'):
                     ts.append((cname, sub, shape))
+    for cname in CASES:
+        if cname.startswith('extra:'):
+            _, params, _, _ = CASES[cname]()
+            for shape in ([(2,), (3,), (2, 2)] if tier == 'thorough' else [(2,), (3,)]):
+                for sub in subsets(params.keys(), tier if len(shape) == 1 else 'quick'):
+                    ts.append((cname, sub, tuple(shape)))
+    ts += bd_tasks(tier)
     seen = set()
     out = []
     for tsk in ts:
@@ -778,7 +1558,7 @@ def tasks_for(tier):
             seen.add(tsk)
             out.append(tsk)
     # heavy (many samples) first: better packing over the worker pool
-    out.sort(key=lambda x: -torch.Size(x[2]).numel())
+    out.sort(key=lambda x: -(1000 + x[4][0]) if x[0].startswith(REGION_PREFIXES) else -torch.Size(x[2]).numel())
     return out
 
 
@@ -809,6 +1589,55 @@ def bounds_like(tier):
               'selection, frequencies included')
 
 
+def bounds_bd(tier):
+    thorough = tier == 'thorough'
+    names = [c for c, (_, ct) in BD_VARIANTS.items() if thorough or ct != 'thorough']
+    return ('BDSKModel (PiecewiseConstantBirthDeath.log_prob through epidemiology_to_birth_death) and BirthDeathModel (BirthDeath.log_prob) on 3 taxa '
+            '((t0,t1),t2) with tip heights 0.5 / 0 / 0.2 (serial + contemporaneous tips); batchable parameters: R, delta, s (= lambda, mu, psi), rho, '
+            'origin / root edge, epoch times, removal probability r, internal node heights; variants: ' + '; '.join(names)
+            + '; sample shapes ' + ', '.join(str(list(x)) for x in BD_SHAPES['thorough' if thorough else 'quick'])
+            + ' ([2] = number of epochs of a 2-epoch model = number of internal nodes, [3] = number of taxa = number of epoch times of a 2-epoch '
+              'model = epochs of a 3-epoch model); subsets: '
+            + ('every non-empty subset at [2] for 1 epoch / constant rates, otherwise ' if thorough else '') + 'all, each single one, all but one; '
+            'every sample index is decided on every explored path region (searchsorted cells of events among epoch times, tips exactly on an '
+            'epoch boundary, rho = 0 or > 0; batched and per-slice executions share one trace per region). One epoch / constant rates: the whole '
+            'domain in one enumeration. More epochs: the generic stratum (every rho > 0, no tip or internal node exactly on an inner epoch '
+            'boundary, in every sample) and its complement inside the domain are enumerated separately with a region budget '
+            + ('(generic / complement, all parameters batched: 2 epochs [2] 60 / 140, [3] 150 / 12, [2,2] 60 / 12; 3 epochs [2] 260 / 12; other '
+               'subsets: 2 epochs [2] 60 / 12; otherwise 12-24 / 12)' if thorough else '(generic: 40 regions at [2], 10 at [3]; complement: 6)')
+            + '. A coverage certificate (closure query unsat: the explored regions cover the stratum) is claimed only for the configurations counted under '
+              '"certificate" in "birth-death: coverage of this run"; for the others the claim is restricted to the explored regions '
+              '(require_closure=False). A region on which the batched evaluation raises is accepted; a region on which a slice alone raises has '
+              'no reference value for that sample (counted in "birth-death: coverage of this run"). A point of the complement stratum whose tie '
+              'condition holds over the reals but not in float64 is executed off the stratum (noted).')
+
+
+def summarize_bd(total):
+    """fold the per-configuration coverage records into one bounds entry"""
+    from collections import Counter
+
+    recs = [n.split('|') for n in total.notes if n.startswith('BD-COVERAGE|')]
+    total.notes[:] = [n for n in total.notes if not n.startswith('BD-COVERAGE|')]
+    if not recs:
+        return
+    c = Counter()
+    regions = Counter()
+    open_cases = Counter()
+    noref = 0
+    for _, cname, shape, kind, cert, nreg, stratum, nsr in recs:
+        noref += int(nsr)
+        c[(stratum, kind, cert)] += 1
+        regions[(stratum, cert)] += int(nreg)
+        if cert != 'certificate':
+            open_cases[f'{cname} {shape} {stratum}'] += 1
+    txt = '; '.join(f'{st} stratum / {kind} / {cert}: {n} configurations' for (st, kind, cert), n in sorted(c.items()))
+    txt += ' | path regions: ' + ', '.join(f'{st} / {cert}: {n}' for (st, cert), n in sorted(regions.items()))
+    if open_cases:
+        txt += ' | explored regions only (number of batched subsets): ' + '; '.join(f'{k}: {n}' for k, n in sorted(open_cases.items()))
+    txt += f' | per-sample comparisons without a reference value (the slice alone raises on that region; tips exactly on an inner epoch boundary with rho > 0 there): {noref}'
+    total.bounds['birth-death: coverage of this run'] = txt
+
+
 def body(chk):
     chk.explanation = ('two-run relational symbolic execution: the real model evaluated with a subset of parameters carrying a sample '
                        'shape ([2] everywhere; [S], [S,K] up to 5x5 for the tree likelihood; distinct symbols per sample) versus freshly '
@@ -816,13 +1645,18 @@ def body(chk):
                        'hash-consing when both runs build the identical expression, otherwise by the solver (a mixing bug gives a value '
                        'that mentions symbols of another sample: counterexample first sought at the witness point, replayed on the real '
                        'code with plain tensors); per configuration a solver vacuity guard (two samples CAN give different values: sat, '
-                       'with the model checked in exact arithmetic when the solver times out)')
+                       'with the model checked in exact arithmetic when the solver times out); birth-death models (BDSKModel 1-3 epochs, '
+                       'BirthDeathModel): the same relational obligation decided on every explored PATH REGION (searchsorted cells, ties with epoch '
+                       'boundaries, rho = 0 / > 0), regions enumerated with blocking clauses, closure query = coverage certificate where the '
+                       'region budget allows (bounds: birth-death), candidates sought at the region witness and at a generic point of the region')
     chk.total.assumptions |= {'eigh is a functional contract stub (same symbolic input -> same symbols), so batched and sliced runs see the same eigen symbols',
                               'a batched evaluation that raises is accepted by the property ("fails with an error"); such configurations are listed in the notes',
-                              'site models and node-height transforms are covered batched in C05 / C06; BDSK in C09'}
-    global BOUNDS_LIKE
+                              'site models and node-height transforms are covered batched in C05 / C06'}
+    global BOUNDS_LIKE, BOUNDS_BD
     BOUNDS_LIKE = bounds_like(chk.tier)
+    BOUNDS_BD = bounds_bd(chk.tier)
     pmap(run_task, tasks_for(chk.tier), chk.total)
+    summarize_bd(chk.total)
 
 
 if __name__ == '__main__':
@@ -835,7 +1669,10 @@ if __name__ == '__main__':
         if isinstance(rp, dict) and 'case' in rp:
             # re-run the recorded counterexample on the real code (plain tensors, per-slice oracle)
             torch.set_default_dtype(torch.float64)
-            bad, detail = replay_case(rp['case'], frozenset(rp['batched']), rp.get('values') or {}, tuple(rp.get('shape', (S,))))
+            if rp['case'].startswith(REGION_PREFIXES):
+                bad, detail = replay_region_case(rp['case'], frozenset(rp['batched']), rp.get('values') or {}, tuple(rp.get('shape', (S,))))
+            else:
+                bad, detail = replay_case(rp['case'], frozenset(rp['batched']), rp.get('values') or {}, tuple(rp.get('shape', (S,))))
             print('reproduced:' if bad else 'NOT reproduced:', detail)
             sys.exit(1 if bad else 0)
         sys.exit(1)
